@@ -29,7 +29,7 @@ PROP = dict(
                            "monitor:target-value-compared": 3000000, "monitor:float-nearest-checked": 1000000,
                            "monitor:query-verdict-compared": 6000000, "monitor:refused-not-representable": 2000000,
                            "monitor:vector-over-source": 200000, "monitor:unknown-target-refused": 800000,
-                           "exhaustive:blocks": 2380}),
+                           "exhaustive:blocks": 2380, "eval:null-address-source": 100000, "monitor:degenerate-source-query-compared": 700}),
               dict(name="c07_text", src=["c07_text.c"], libs=["mptcore"], batch=8,
                    floors={"mpt_cint8": 20000, "mpt_cint16": 20000, "mpt_cint32": 20000, "mpt_cint64": 20000, "mpt_cchar": 20000,
                            "mpt_cint": 20000, "mpt_clong": 20000, "mpt_cuint8": 20000, "mpt_cuint16": 20000, "mpt_cuint32": 20000,
@@ -42,7 +42,7 @@ PROP = dict(
                            "monitor:refused-not-representable": 150000}),
               dict(name="c07_cxx", src=["c07_cxx.cpp"], libs=["mpt++", "mptio", "mptplot", "mptcore"], batch=32,
                    floors={"metatype::generic::convert": 30000, "metatype::create(value)": 15000, "metatype::value<T>::convert": 20000,
-                           "metatype::basic::convert": 5000, "eval:conversions": 400000, "monitor:query-verdict-compared": 400000,
+                           "metatype::basic::convert": 5000, "value::convert": 10000, "eval:null-address-source": 5000, "eval:conversions": 400000, "monitor:query-verdict-compared": 400000,
                            "monitor:target-value-compared": 100000, "monitor:refused-not-representable": 50000})],
         rule=("value leg: case = (API, source type, target, block): a block is the complete value range (8-bit), 4096 consecutive values "
               "(16-bit, 16 blocks) or the boundary list plus 1000 (quick) / 4000 (thorough) PRNG values (32/64-bit, floating); every value "
